@@ -11,6 +11,17 @@ pub fn esc(s: &str) -> String {
 /// parses but its evaluator cannot be built (input data without type reference).
 pub fn alphabet_model(id: &str, ns: &str, name: &str, builds: bool) -> String {
   let type_ref = if builds { " typeRef=\"string\"" } else { "" };
+  // W10 is a model without any invocable (a library of input data): it builds, so it is deployed like the others, and
+  // evaluating anything of it answers a value (null: no such invocable), not "not deployed"
+  if id == "W10" {
+    return format!(
+      "<?xml version=\"1.0\" encoding=\"UTF-8\"?>\n<definitions xmlns=\"{}\" namespace=\"{}\" name=\"{}\" id=\"{}\">\n  <inputData name=\"x\" id=\"i_x\"><variable name=\"x\" typeRef=\"string\"/></inputData>\n</definitions>",
+      DMN_NS,
+      esc(ns),
+      esc(name),
+      esc(id)
+    );
+  }
   format!(
     r##"<?xml version="1.0" encoding="UTF-8"?>
 <definitions xmlns="{dmn}" namespace="{ns}" name="{name}" id="{id}">
